@@ -99,3 +99,29 @@ def _canary_dist(e):
 
 
 CANARY.update({"relate": _canary_relate, "valid": _canary_valid, "overlay": _canary_overlay, "dist": _canary_dist})
+
+FAMILY_MODULE["hull"] = "Trace_Hull"
+
+
+def _canary_hull(e):
+    if e["hull"]["kind"] != "poly" or len(e["hull"]["pts"]) < 5:
+        return None
+    # drop one hull vertex (keep the ring closed): the hull no longer covers / is not the extreme set
+    pts = e["hull"]["pts"]
+    e["hull"]["pts"] = [pts[0]] + pts[2:]
+    e["hull2"] = e["hull"]
+    return e
+
+
+CANARY["hull"] = _canary_hull
+
+
+@prop("C13")
+def c13(run):
+    run.assumptions += ["hull decided exactly on lattices N<=16; rectangles on N<=8 with corners checked to 3/256 of the lattice unit "
+                        "and the minimised metric to ~1%"]
+    run.extra_cov = {"rule": "random lattice geometries of all types and point multisets (1..200 points, duplicates, collinear "
+                             "runs) incl. exact-similarity images; hull, hull of hull, hull of a shuffled duplicated MultiPoint of "
+                             "the control points, both rotated rectangles; non-trivial = at least 3 control points"}
+    run.model_check("MC_Hull", cfg=tier_n(run, "MC_Hull.cfg", "MC_Hull_thorough.cfg"), timeout=3000)
+    family_random(run, "hull", "Trace_Hull", tier_n(run, 8000, 300000))
